@@ -249,12 +249,16 @@ def _check_path(spec, c, tally, vectorized, twin, cvc5, delayed_factory, ext_inp
         ctx = types.SimpleNamespace(spec=spec, c=c, syms=syms, y_sym=y_sym, pos=pos, sargs=sargs, out=out, res=res,
                                     tally=tally, pc=pc, binding=binding, t_sym=t_sym, vectorized=vectorized,
                                     delayed=None, past=None, abort=False, P=P, Y=Y, W=W, EP=EP, ny=ny,
-                                    ref_states=ref_states, y_names=y_names)
+                                    ref_states=ref_states, y_names=y_names, edge_state=None)
         plugin.after_run(ctx)
         out, delayed, past, pc = ctx.out, ctx.delayed, ctx.past, ctx.pc
+        edge_state = ctx.edge_state
         if ctx.abort:
             return res
-    R = refsem.Ref(spec, refsem.SymDom(), P, Y, W, EP, delayed=delayed, ext_inputs=ext_inputs, past=past)
+    else:
+        edge_state = None
+    R = refsem.Ref(spec, refsem.SymDom(), P, Y, W, EP, delayed=delayed, ext_inputs=ext_inputs, past=past,
+                   edge_state=edge_state)
     for sv in ref_states:
         try:
             ref = R.deriv(*sv)
